@@ -293,6 +293,47 @@ def once_per_scenario_rule(ctx: Ctx, rid: str):
                key=key_of(rid, ps, None, f"once {norm(call.func)}"))
 
 
+def singleton_history_rule(ctx: Ctx, rid: str, reach):
+    """The message handler is one object per process; its error count and message list accumulate over everything the process has
+    handled.  No decision of a run may read them (`MessageHandlerInstance().errors`, `.messages`) unless the same function has
+    cleared / reset the handler on every path before (dominance): otherwise a run fails because an earlier, unrelated run logged an
+    error.  Zero expected; a built-in control sample must match."""
+    ACC = {"errors", "_errors", "messages", "_messages"}
+
+    def reads(fn_node):
+        out = []
+        for x in ast.walk(fn_node):
+            if isinstance(x, ast.Attribute) and x.attr in ACC and isinstance(x.ctx, ast.Load):
+                base = x.value
+                if (isinstance(base, ast.Call) and norm(base.func).split(".")[-1] in ("MessageHandlerInstance", "get_message_handler", "messageHandler")):
+                    out.append(x)
+                elif isinstance(base, ast.Name):
+                    for a in ast.walk(fn_node):
+                        if isinstance(a, ast.Assign) and any(isinstance(t, ast.Name) and t.id == base.id for t in a.targets) and isinstance(a.value, ast.Call) \
+                                and norm(a.value.func).split(".")[-1] in ("MessageHandlerInstance", "get_message_handler", "messageHandler"):
+                            out.append(x)
+        return out
+    ctrl = ast.parse("def f():\n    return MessageHandlerInstance().errors == 0\ndef g():\n    h = MessageHandlerInstance()\n    return len(h.messages)\ndef k(self):\n    return self.errors\n")
+    if [len(reads(d)) for d in ctrl.body] != [1, 1, 0]:
+        raise AnchorMissing("singleton-history rule: built-in control sample no longer matches")
+    n = 0
+    for fn in sorted(reach, key=lambda f: f.key):
+        if fn.module.rel.endswith("utils/message_handler.py"):
+            continue
+        n += 1
+        for x in reads(fn.node):
+            cleared = any(isinstance(c, ast.Call) and isinstance(c.func, ast.Attribute) and c.func.attr in ("clear", "reset") and c.lineno < x.lineno
+                          and norm(c.func.value).split("(")[0].split(".")[-1] in ("MessageHandlerInstance", "get_message_handler", "messageHandler", "handler", "h", "mh")
+                          for c in own_nodes(fn))
+            ctx.ob(rid, f"{fn.qual}: reads {norm(x)[:50]}", (fn, x), cleared,
+                   "the handler is cleared by this function before its count is read" if cleared else
+                   f"{norm(x)[:50]} is the count / list of everything this process has logged so far, not of this run: after any earlier run that "
+                   "logged an error the same input is reported as failed",
+                   key=key_of(rid, fn, x, "singleton history"))
+    ctx.ob(rid, f"no decision reads the process-wide message count / list ({n} functions outside the handler module)", None, True,
+           "runs do not see what earlier runs logged", nontrivial=False)
+
+
 def run_extra(ctx: Ctx):
     once_per_scenario_rule(ctx, "R12.8")
     # ---------------------------------------------------------------- R12.7 nothing of an earlier text is in the objects a text is read with
@@ -490,6 +531,7 @@ def run(ctx: Ctx):
 
     # ---------------------------------------------------------------- R12.5 census of shared mutable containers
     shared_container_census(ctx, "R12.5", reach)
+    singleton_history_rule(ctx, "R12.9", reach)
     # ---------------------------------------------------------------- R12.3
     ss = repo.func("Project.scheduleScenario")
     for x in own_nodes(ss):
